@@ -33,6 +33,10 @@ def make_simdb(TimeSeriesDatabase):
       f = self.fault_plan.get(i)
       if self.ctx is not None:
         self.ctx.log.add('db', i, kind, metric, f)
+      if f is not None and f[0] != 'slow':
+        rec[5] = 'raise'
+      if self.on_call:
+        self.on_call(rec)
       if f is not None:
         if f[0] == 'slow':
           if self.ctx is not None:
@@ -48,8 +52,6 @@ def make_simdb(TimeSeriesDatabase):
           if f[1] == 'ioerror':
             raise IOError('injected I/O error')
           raise RuntimeError('injected backend failure')
-      if self.on_call:
-        self.on_call(rec)
       return rec
 
     # -- TimeSeriesDatabase API ---------------------------------------------------
